@@ -556,3 +556,165 @@ pub(crate) mod table {
         }
     }
 }
+
+// ---------------------------------------------------------------- std::collections::BTreeMap (get_fields_order)
+
+/// Model of `std::collections::BTreeMap` restricted to what `ObjectData::get_fields_order` uses
+/// (`new`, `extend`, `entry`, by-value iteration in ascending key order). Same bounded-slot
+/// representation; ordered iteration is done by repeated minimum selection.
+pub(crate) struct KBTreeMap<K, V> {
+    slots: [Option<(K, V)>; CAP],
+}
+
+impl<K: Ord, V> KBTreeMap<K, V> {
+    #[inline]
+    pub(crate) fn new() -> Self {
+        Self { slots: empty_slots() }
+    }
+
+    fn position(&self, k: &K) -> Option<usize> {
+        let mut i = 0;
+        while i < CAP {
+            if let Some((k2, _)) = &self.slots[i] {
+                if k2 == k {
+                    return Some(i);
+                }
+            }
+            i += 1;
+        }
+        None
+    }
+
+    pub(crate) fn insert(&mut self, k: K, v: V) -> Option<V> {
+        match self.position(&k) {
+            Some(i) => match &mut self.slots[i] {
+                Some((_, old)) => Some(std::mem::replace(old, v)),
+                None => None,
+            },
+            None => {
+                let mut i = 0;
+                while i < CAP {
+                    if self.slots[i].is_none() {
+                        self.slots[i] = Some((k, v));
+                        return None;
+                    }
+                    i += 1;
+                }
+                panic!("kmap model capacity exceeded");
+            }
+        }
+    }
+
+    pub(crate) fn entry(&mut self, key: K) -> btree::Entry<'_, K, V> {
+        match self.position(&key) {
+            Some(idx) => btree::Entry::Occupied(btree::OccupiedEntry { map: self, idx }),
+            None => btree::Entry::Vacant(btree::VacantEntry { map: self, key }),
+        }
+    }
+}
+
+impl<K: Ord, V> Extend<(K, V)> for KBTreeMap<K, V> {
+    fn extend<I: IntoIterator<Item = (K, V)>>(&mut self, iter: I) {
+        for (k, v) in iter {
+            self.insert(k, v);
+        }
+    }
+}
+
+pub(crate) struct KBTreeIntoIter<K, V> {
+    slots: [Option<(K, V)>; CAP],
+}
+
+impl<K: Ord, V> Iterator for KBTreeIntoIter<K, V> {
+    type Item = (K, V);
+
+    fn next(&mut self) -> Option<(K, V)> {
+        let mut best: Option<usize> = None;
+        let mut i = 0;
+        while i < CAP {
+            if let Some((k, _)) = &self.slots[i] {
+                let better = match best {
+                    None => true,
+                    Some(b) => match &self.slots[b] {
+                        Some((kb, _)) => k < kb,
+                        None => true,
+                    },
+                };
+                if better {
+                    best = Some(i);
+                }
+            }
+            i += 1;
+        }
+        match best {
+            Some(b) => self.slots[b].take(),
+            None => None,
+        }
+    }
+}
+
+impl<K: Ord, V> IntoIterator for KBTreeMap<K, V> {
+    type Item = (K, V);
+    type IntoIter = KBTreeIntoIter<K, V>;
+
+    fn into_iter(self) -> Self::IntoIter {
+        KBTreeIntoIter { slots: self.slots }
+    }
+}
+
+pub(crate) mod btree {
+    use super::{CAP, KBTreeMap};
+
+    pub(crate) enum Entry<'a, K, V> {
+        Occupied(OccupiedEntry<'a, K, V>),
+        Vacant(VacantEntry<'a, K, V>),
+    }
+
+    pub(crate) struct OccupiedEntry<'a, K, V> {
+        pub(super) map: &'a mut KBTreeMap<K, V>,
+        pub(super) idx: usize,
+    }
+
+    pub(crate) struct VacantEntry<'a, K, V> {
+        pub(super) map: &'a mut KBTreeMap<K, V>,
+        pub(super) key: K,
+    }
+
+    impl<'a, K, V> OccupiedEntry<'a, K, V> {
+        #[inline]
+        pub(crate) fn get(&self) -> &V {
+            match &self.map.slots[self.idx] {
+                Some((_, v)) => v,
+                None => unreachable!(),
+            }
+        }
+
+        #[inline]
+        pub(crate) fn get_mut(&mut self) -> &mut V {
+            match &mut self.map.slots[self.idx] {
+                Some((_, v)) => v,
+                None => unreachable!(),
+            }
+        }
+    }
+
+    impl<'a, K, V> VacantEntry<'a, K, V> {
+        pub(crate) fn insert(self, v: V) -> &'a mut V {
+            let mut i = 0;
+            while i < CAP {
+                if self.map.slots[i].is_none() {
+                    break;
+                }
+                i += 1;
+            }
+            if i == CAP {
+                panic!("kmap model capacity exceeded");
+            }
+            self.map.slots[i] = Some((self.key, v));
+            match &mut self.map.slots[i] {
+                Some((_, v)) => v,
+                None => unreachable!(),
+            }
+        }
+    }
+}
